@@ -158,6 +158,10 @@ func (a *zzxABI) VerifyTransaction(req *labi.VerifyTransactionRequest) (*labi.Ve
 	return &labi.VerifyTransactionResponse{Result: a.verifyResult}, nil
 }
 func (a *zzxABI) ExecuteTransaction(req *labi.ExecuteTransactionRequest) (*labi.ExecuteTransactionResponse, error) {
+	// like the real in-process application (framework.ABIHandler.ExecuteTransaction) the scripted one READS the
+	// consensus parameters of the request: an engine that leaves them out crashes here (defect found on the real
+	// handler by zzH_C16_abi_exec_engine_request)
+	_ = req.Consensus.ImplyMaxPrevote
 	if err := a.step("ExecuteTransaction"); err != nil {
 		return nil, err
 	}
